@@ -45,6 +45,8 @@ const (
 	xBin
 	xCond  // a ? b : c   (a = test, b = yes, c = no)
 	xIndex // a[b]
+	xCall  // a(args...)
+	xNew   // new a(args...)
 )
 
 type xexpr struct {
@@ -54,6 +56,7 @@ type xexpr struct {
 	op    js_ast.OpCode
 	a, b  *xexpr
 	c     *xexpr
+	args  []*xexpr
 	value float64
 }
 
@@ -81,6 +84,15 @@ func (e *xexpr) coq() string {
 		return "(ECond " + e.a.coq() + " " + e.b.coq() + " " + e.c.coq() + ")"
 	case xIndex:
 		return "(EIndex " + e.a.coq() + " " + e.b.coq() + ")"
+	case xCall, xNew:
+		args := "ANil"
+		for i := len(e.args) - 1; i >= 0; i-- {
+			args = "(ACons " + e.args[i].coq() + " " + args + ")"
+		}
+		if e.k == xCall {
+			return "(ECall " + e.a.coq() + " " + args + ")"
+		}
+		return "(ENew " + e.a.coq() + " " + args + ")"
 	default:
 		return "(EBin " + coqOpNames[e.op] + " " + e.a.coq() + " " + e.b.coq() + ")"
 	}
@@ -129,6 +141,20 @@ func (tb *treeBuilder) build(e *xexpr) js_ast.Expr {
 		return js_ast.Expr{Data: &js_ast.EIf{Test: tb.build(e.a), Yes: tb.build(e.b), No: tb.build(e.c)}}
 	case xIndex:
 		return js_ast.Expr{Data: &js_ast.EIndex{Target: tb.build(e.a), Index: tb.build(e.b)}}
+	case xCall, xNew:
+		var args []js_ast.Expr
+		for _, a := range e.args {
+			args = append(args, tb.build(a))
+		}
+		if e.k == xNew {
+			return js_ast.Expr{Data: &js_ast.ENew{Target: tb.build(e.a), Args: args}}
+		}
+		// what the parser records for "a.b()" and "a[b]()"; without it the printer emits "(0, a.b)()"
+		kind := js_ast.NormalCall
+		if e.a.k == xDot || e.a.k == xIndex {
+			kind = js_ast.TargetWasOriginallyPropertyAccess
+		}
+		return js_ast.Expr{Data: &js_ast.ECall{Target: tb.build(e.a), Args: args, Kind: kind}}
 	case xUn:
 		return js_ast.Expr{Data: &js_ast.EUnary{Op: e.op, Value: tb.build(e.a), WasOriginallyTypeofIdentifier: true, WasOriginallyDeleteOfIdentifierOrPropertyAccess: true}}
 	default:
@@ -177,7 +203,7 @@ func genNum(r *Rng) *xexpr {
 // chooses the division goal after "++"/"--" (documented restriction of the
 // modelled fragment), so update targets never start with a regular expression
 func leftmostIsRegex(e *xexpr) bool {
-	for e.k == xDot || e.k == xIndex {
+	for e.k == xDot || e.k == xIndex || e.k == xCall {
 		e = e.a
 	}
 	return e.k == xRe
@@ -218,7 +244,17 @@ func genTree(r *Rng, depth int) *xexpr {
 			return &xexpr{k: xRe, s: r.Pick(reBodies), f: r.Pick(reFlags)}
 		}
 	}
-	switch r.Intn(13) {
+	switch r.Intn(17) {
+	case 13, 14, 15, 16:
+		k := xCall
+		if r.Bool() {
+			k = xNew
+		}
+		e := &xexpr{k: k, a: genTree(r, depth-1)}
+		for i, na := 0, []int{0, 0, 1, 1, 2, 3}[r.Intn(6)]; i < na; i++ {
+			e.args = append(e.args, genTree(r, depth-1))
+		}
+		return e
 	case 10, 11:
 		return &xexpr{k: xCond, a: genTree(r, depth-1), b: genTree(r, depth-1), c: genTree(r, depth-1)}
 	case 12:
@@ -326,6 +362,37 @@ func gluingGrid() []*xexpr {
 			out = append(out, bin(b, abc, id("x")))
 		}
 	}
+	// calls and new-expressions: every callee / operand position that decides about parentheses or about the "()" of new
+	call := func(f *xexpr, args ...*xexpr) *xexpr { return &xexpr{k: xCall, a: f, args: args} }
+	nw := func(f *xexpr, args ...*xexpr) *xexpr { return &xexpr{k: xNew, a: f, args: args} }
+	dot := func(a *xexpr, s string) *xexpr { return &xexpr{k: xDot, a: a, s: s} }
+	num1 := &xexpr{k: xNum, s: "1", value: 1}
+	ab := bin(js_ast.BinOpComma, id("a"), id("b"))
+	asg := bin(js_ast.BinOpAssign, id("a"), id("b"))
+	out = append(out, call(id("a")), call(id("a"), id("b")), call(id("a"), id("b"), id("c"), id("d")), call(id("a"), ab, ab), call(id("a"), asg, abc, asg),
+		call(call(id("a"))), call(call(id("a"), id("b")), id("c")), call(dot(id("a"), "b")), call(idx(id("a"), id("b")), id("c")), dot(call(id("a")), "b"), idx(call(id("a")), id("b")),
+		call(abc), call(asg), call(ab), call(un(js_ast.UnOpNot, id("a"))), call(un(js_ast.UnOpPostInc, id("a"))), call(bin(js_ast.BinOpAdd, id("a"), id("b"))), call(num1), call(&xexpr{k: xRe, s: "x", f: "g"}),
+		nw(id("a")), nw(id("a"), id("b")), nw(id("a"), id("b"), id("c")), nw(id("a"), ab), nw(id("a"), asg, abc),
+		nw(call(id("a"))), nw(call(id("a")), id("b")), nw(dot(call(id("a")), "b")), nw(dot(call(id("a")), "b"), id("c")), nw(idx(call(id("a")), id("b"))), nw(dot(dot(call(id("a")), "b"), "c")),
+		nw(call(dot(id("a"), "b"))), nw(call(call(id("a")))), nw(idx(id("a"), call(id("b")))), nw(dot(id("a"), "b")), nw(dot(id("a"), "b"), call(id("c"))),
+		nw(nw(id("a"))), nw(nw(id("a")), id("b")), nw(nw(id("a"), id("b"))), nw(nw(nw(id("a")))), nw(dot(nw(id("a")), "b")), nw(idx(nw(id("a")), id("b"))), nw(call(nw(id("a")))),
+		dot(nw(id("a")), "b"), idx(nw(id("a")), id("b")), call(nw(id("a"))), call(nw(id("a")), id("b")), call(dot(nw(id("a")), "b")), dot(nw(id("a"), id("b")), "c"), call(nw(id("a"), id("b"))),
+		nw(abc), nw(asg), nw(ab), nw(un(js_ast.UnOpNot, id("a"))), nw(un(js_ast.UnOpPostInc, id("a"))), nw(bin(js_ast.BinOpAdd, id("a"), id("b"))), nw(num1), nw(&xexpr{k: xRe, s: "x", f: "g"}), nw(dot(num1, "e")),
+		un(js_ast.UnOpPostInc, dot(nw(id("a")), "b")), un(js_ast.UnOpPreInc, dot(call(id("a")), "b")), un(js_ast.UnOpPreDec, idx(call(id("a")), id("b"))), un(js_ast.UnOpPostDec, idx(nw(id("a")), id("b"))),
+		bin(js_ast.BinOpAssign, dot(call(id("a")), "b"), nw(id("c"))), bin(js_ast.BinOpAssign, dot(nw(id("a")), "b"), call(id("c"))),
+		cond(nw(id("a")), nw(id("b")), nw(id("c"))), cond(call(id("a")), call(id("b")), call(id("c"))), idx(id("a"), nw(id("b"))), call(id("a"), nw(id("b")), nw(id("c"))))
+	for _, p := range pre {
+		out = append(out, call(id("x"), un(p, id("a"))), nw(id("x"), un(p, id("a"))), un(p, dot(call(id("a")), "b")), un(p, dot(nw(id("a")), "b")))
+		if p != js_ast.UnOpPreDec && p != js_ast.UnOpPreInc {
+			out = append(out, un(p, call(id("a"))), un(p, nw(id("a"))), nw(un(p, id("a"))), call(un(p, id("a"))))
+		}
+	}
+	for _, b := range bins {
+		out = append(out, bin(b, id("x"), nw(id("a"))), bin(b, id("x"), call(id("a"))), call(id("f"), bin(b, id("x"), id("y"))), nw(id("f"), bin(b, id("x"), id("y")), id("z")))
+		if b < js_ast.BinOpAssign {
+			out = append(out, bin(b, nw(id("a")), id("x")), bin(b, call(id("a")), id("x")), bin(b, nw(id("a")), nw(id("b"))))
+		}
+	}
 	out = append(out, un(js_ast.UnOpTypeof, &xexpr{k: xRe, s: "x", f: ""}), un(js_ast.UnOpVoid, un(js_ast.UnOpTypeof, id("a"))), un(js_ast.UnOpTypeof, un(js_ast.UnOpNeg, id("a"))))
 	return out
 }
@@ -421,7 +488,7 @@ func runC13(seed uint64, n int, tier string, outDir string) []*Stats {
 	// --- glue streams through api.Transform
 	glue(r, st, n, tier, printed)
 
-	st.Finish("seeded generator (splitmix64 from VERIF_SEED): js_ast.OpTable rows; keyword candidates (ECMA-262 reserved words, strict/future/contextual words, near misses) against the run-time maps and the real lexer; expression trees (exhaustive operator-adjacency grid + random trees over all 53 operators, identifiers incl. contextual keywords, integers, regexps, member access) printed by js_printer.Print in both whitespace modes; glue: trees, jsgen programs, all string literals of js_parser_test.go/js_printer_test.go, rare-production grammar generator and token-level mutations through api.Transform under format x minify-whitespace x charset x JSX-preserve, checked by node (vm.Script / vm.SourceTextModule) and by a second Transform. distinct_nontrivial = distinct (kind,input) with at least one operator / accepted program")
+	st.Finish("seeded generator (splitmix64 from VERIF_SEED): js_ast.OpTable rows; keyword candidates (ECMA-262 reserved words, strict/future/contextual words, near misses) against the run-time maps and the real lexer; expression trees (exhaustive operator-adjacency grid + random trees over all 53 operators, identifiers incl. contextual keywords, integers, regexps, member/index access, conditionals, calls and new-expressions with argument lists) printed by js_printer.Print in both whitespace modes; glue: trees, jsgen programs, all string literals of js_parser_test.go/js_printer_test.go, rare-production grammar generator and token-level mutations through api.Transform under format x minify-whitespace x charset x JSX-preserve, checked by node (vm.Script / vm.SourceTextModule) and by a second Transform. distinct_nontrivial = distinct (kind,input) with at least one operator / accepted program")
 	if err := os.WriteFile(filepath.Join(outDir, "c13_cases.v"), []byte(cf.String()), 0o644); err != nil {
 		panic(err)
 	}
@@ -448,6 +515,13 @@ func idOnly(e *xexpr) bool {
 		return idOnly(e.a) && idOnly(e.b) && idOnly(e.c)
 	case xIndex:
 		return idOnly(e.a) && idOnly(e.b)
+	case xCall, xNew:
+		for _, a := range e.args {
+			if !idOnly(a) {
+				return false
+			}
+		}
+		return idOnly(e.a)
 	case xUn:
 		// typeof/void have a known type, which lets the parser simplify "??", "!" and "||" around them
 		return e.op != js_ast.UnOpTypeof && e.op != js_ast.UnOpVoid && idOnly(e.a)
